@@ -28,11 +28,17 @@ TrKH   == FoldLeft(LAMBDA acc, k : (k.id :> k.h30) @@ acc, <<>>, AllKeyEnts)
 \* the design layer, instantiated with the tables of this trace (an unnamed INSTANCE: TLC caches the
 \* substituted constant-level definitions, which it does not do for `KLen <- TrKLen` in a cfg file)
 INSTANCE AbyStore WITH KLen <- TrKLen, VLen <- TrVLen, KH <- TrKH
+\* lossy UTF-8 decoding on value ids: declared images (vals entries with lossy_of), identity otherwise
+TrLossy == FoldLeft(LAMBDA acc, v : IF Has(v, "lossy_of") THEN (v.lossy_of :> v.id) @@ acc ELSE acc, <<>>, AllValEnts)
+Lossy(v) == IF v \in DOMAIN TrLossy THEN TrLossy[v] ELSE v
 KeyIds == DOMAIN TrKLen
 ValIds == DOMAIN TrVLen
 \* C12.placement: the placement hash of every short key, recomputed inside TLC from the key
 \* bytes, equals the one the decoder's re-implementation logged
 KeysWithBytes == {i \in 1..Len(AllKeyEnts) : Has(AllKeyEnts[i], "bytes")}
+\* integer keys of the tables: their bytes are what AbyCodec says (checked once, with the hash table)
+KeysWithInt == {i \in KeysWithBytes : Has(AllKeyEnts[i], "x4") /\ Has(AllKeyEnts[i], "enc")}
+CodecTableOK == \A i \in KeysWithInt : AllKeyEnts[i].bytes = KeyBytesOf(AllKeyEnts[i].enc, AllKeyEnts[i].x4)
 HashTableOK == \A i \in KeysWithBytes : Low30(KHash(AllKeyEnts[i].bytes)) = AllKeyEnts[i].h30
 
 VARIABLES
@@ -316,17 +322,47 @@ Proc(e) ==
             LET r == upd(M!MPut(mm, e.k, e.v), e.k) IN
             [r EXCEPT !.st = IF ~tracked THEN st ELSE Set(st, m, Put(st[m], e.k, e.v)),
                       !.fails = OutcomeFails(e)]
-      [] e.ev \in {"get", "get_string"} ->
+      [] e.ev = "get" ->
             IF ~known THEN base ELSE
             [base EXCEPT !.fails = OutcomeFails(e) \cup
                 (IF e.outcome # "ok" \/ e.res = M!MGet(mm, e.k) THEN {} ELSE {"C01.result"})]
+      [] e.ev = "get_string" ->
+            \* C14: the string variant is the byte variant composed with lossy UTF-8 decoding
+            IF ~known THEN base ELSE
+            [base EXCEPT !.fails = OutcomeFails(e) \cup
+                (IF e.outcome # "ok" \/ e.res = Lossy(M!MGet(mm, e.k)) THEN {} ELSE {"C14.string_variant"})]
       [] e.ev \in {"del", "del_string"} ->
             IF ~known THEN base ELSE
             LET d == M!MDel(mm, e.k)
                 r == IF d[2] = 0 THEN base ELSE upd(d[1], e.k)
             IN [r EXCEPT !.st = IF ~tracked THEN st ELSE Set(st, m, Del(st[m], e.k)[1]),
                          !.fails = OutcomeFails(e) \cup
-                            (IF e.outcome # "ok" \/ e.res = d[2] THEN {} ELSE {"C01.result"})]
+                            (IF e.outcome # "ok" \/ e.res = (IF e.ev = "del" THEN d[2] ELSE Lossy(d[2])) THEN {} ELSE {"C01.result"})]
+      [] e.ev \in {"bulk_get", "bulk_get_string"} ->
+            \* C14: position i holds what get of the i-th key returns (any batch)
+            IF ~known THEN base ELSE
+            [base EXCEPT !.fails = OutcomeFails(e) \cup
+                (IF e.outcome # "ok" \/ e.res = [i \in 1..Len(e.ks) |-> IF e.ev = "bulk_get" THEN M!MGet(mm, e.ks[i]) ELSE Lossy(M!MGet(mm, e.ks[i]))]
+                 THEN {} ELSE {"C14.bulk_get"})]
+      [] e.ev \in {"bulk_del", "bulk_del_string"} ->
+            \* C14: element-wise results for batches without repeated keys; the final map is the
+            \* element-wise one for any batch
+            IF ~known THEN base ELSE
+            LET d == M!MDelAll(mm, e.ks)
+                r == IF d[1] = mm THEN base ELSE upd(d[1], 0)
+            IN [r EXCEPT !.st = IF tracked THEN Set(st, m, NoneS) ELSE st,
+                         !.fails = OutcomeFails(e) \cup
+                            (IF e.outcome # "ok" \/ ~M!NoRepeats(e.ks) \/
+                                e.res = [i \in 1..Len(e.ks) |-> IF e.ev = "bulk_del" THEN d[2][i] ELSE Lossy(d[2][i])]
+                             THEN {} ELSE {"C14.bulk_delete"})]
+      [] e.ev \in {"bulk_put", "bulk_put_string", "put_from_iter"} ->
+            \* C14: the map afterwards is the one the individual puts leave (bulk_put: batches without
+            \* repeated keys; put_from_iter: in iteration order); judged by the reads that follow
+            IF ~known THEN base ELSE
+            IF e.ev # "put_from_iter" /\ ~M!NoRepeats(e.ks) THEN [base EXCEPT !.mem = Set(mem, m, Unknown)] ELSE
+            LET pairs == [i \in 1..Len(e.ks) |-> <<e.ks[i], e.vs[i]>>]
+                r == upd(M!MPutAll(mm, pairs), 0)
+            IN [r EXCEPT !.st = IF tracked THEN Set(st, m, NoneS) ELSE st, !.fails = OutcomeFails(e)]
       [] e.ev = "includes" ->
             IF ~known THEN base ELSE
             [base EXCEPT !.fails = OutcomeFails(e) \cup
@@ -412,7 +448,8 @@ Proc(e) ==
                 P  == Get0(last, m, NoneS)
                 DP == Derive(P)
                 wf == ChainsOKD(S, D) /\ ValRefsOKD(S, D)
-                sf == StateFails(e.st, S, D, m)
+                sf == StateFails(e.st, S, D, m) \cup
+                      (IF m \in DOMAIN meta /\ meta[m].n # S.n THEN {"C07.n"} ELSE {})     \* bucket count = BucketsFromParam at creation, for ever
                 one == ~IsNone(P) /\ sinc[1] = 1
                 stepf == IF one THEN StepFails(P, DP, S, D, sinc[2]) ELSE {}
                 pk0 == Get0(aux.peak, m, NoPeak)
@@ -446,7 +483,25 @@ Proc(e) ==
             LET a == Get0(aux.dg, e.same[1], <<"?a">>)
                 b == Get0(aux.dg, e.same[2], <<"?b", "?">>)
             IN [base EXCEPT !.fails = IF a = b THEN {} ELSE
-                    IF e.conj \in {"C11.others", "C13.unchanged", "C15.bytes", "C18.equal", "C12.stable"} THEN {e.conj} ELSE {"TOOL.bad_conj"}]
+                    IF e.conj \in {"C11.others", "C13.unchanged", "C15.bytes", "C18.equal", "C12.stable"} THEN {e.conj} ELSE {"TOOL.bad_conj"},
+                            \* the two digests are used up
+                            !.aux = [aux EXCEPT !.dg = [t \in (DOMAIN aux.dg) \ {e.same[1], e.same[2]} |-> aux.dg[t]]]]
+      [] e.ev = "conv" ->
+            \* C10: integer -> key bytes by value and by reference, and back (AbyCodec)
+            [base EXCEPT !.fails =
+                (IF e.byv = KeyBytesOf(e.kt, e.x4) THEN {} ELSE {"C10.conv_bytes"})
+                \cup (IF e.byr = e.byv THEN {} ELSE {"C10.conv_agree"})
+                \cup (IF e.kt \in {"u64", "i64", "vu64"} /\ e.back4 # e.x4 THEN {"C10.conv_back"} ELSE {})
+                \cup (IF e.kt \in {"u64", "i64", "vu64"} /\ IntBackOf(e.kt, e.byv) # e.x4 THEN {"C10.conv_back"} ELSE {})]
+      [] e.ev = "hash" ->
+            \* C12: the crate's own placement hash of a table key equals the documented one
+            [base EXCEPT !.fails = IF e.h30 = TrKH[e.k] THEN {} ELSE {"C12.placement"}]
+      [] e.ev = "load" ->
+            \* a released image with known contents is installed (golden image, C12)
+            [base EXCEPT !.mem = Set(mem, m, ContentMap(e.content)),
+                         !.meta = Set(meta, m, [kt |-> e.kt, n |-> e.n, dir |-> e.dir, foreign |-> FALSE, open |-> FALSE]),
+                         !.st = Set(st, m, NoneS), !.last = Set(last, m, NoneS),
+                         !.aux = [aux EXCEPT !.dur = Set(aux.dur, m, TRUE), !.synced = Set(aux.synced, m, FALSE)]]
       [] e.ev = "mutate_file" ->
             \* a signature byte of one of the files was changed / a foreign file swapped in
             LET mid == e.map IN
@@ -462,7 +517,7 @@ Next ==
        ELSE IF e.outcome \in {"panic", "hang"} /\ ~(e.ev \in {"map", "child_dump"})
        THEN \* the call did not return: C01.outcome (attributed by the check to its own property)
             /\ PrintT(<<"VERDICT", ToJson([l |-> l + 1, i |-> Fld(e, "i", -1), hist |-> aux.hist, conj |-> {"C01.outcome"},
-                                           ev |-> e.ev, outcome |-> e.outcome, msg |-> Fld(e, "msg", "-"), m |-> Fld(e, "m", "-")])>>)
+                                           ev |-> e.ev, outcome |-> e.outcome, msg |-> Fld(e, "msg", "-"), m |-> Fld(e, "m", "-"), tag |-> Fld(e, "tag", "-")])>>)
             /\ skip' = TRUE /\ nfail' = nfail + 1
             /\ UNCHANGED <<mem, meta, st, last, aux>>
        ELSE LET r == Proc(e) IN
@@ -471,7 +526,7 @@ Next ==
             /\ IF r.fails # {}
                THEN /\ PrintT(<<"VERDICT", ToJson([l |-> l + 1, i |-> Fld(e, "i", -1), hist |-> aux.hist, conj |-> r.fails,
                                                    ev |-> e.ev, outcome |-> Fld(e, "outcome", "-"), msg |-> Fld(e, "msg", "-"),
-                                                   m |-> Fld(e, "m", "-"), kt |-> Fld(e, "kt", "-"),
+                                                   m |-> Fld(e, "m", "-"), kt |-> Fld(e, "kt", "-"), tag |-> Fld(e, "tag", "-"),
                                                    mkt |-> IF Fld(e, "m", "-") \in DOMAIN meta THEN meta[e.m].kt ELSE "-"])>>)
                     \* the contract state does not depend on the implementation, so the history goes on
                     \* (the design state is re-based on the logged one); a flood is cut after 25 verdicts
@@ -486,7 +541,8 @@ Spec == Init /\ [][Next]_vars
 
 \* acceptance: every event was consumed (one TLC state per event plus the initial state)
 Accepted ==
-    /\ Assert(HashTableOK, "C12.placement: placement hash recomputed in TLC differs from the logged one")
+    /\ Assert(HashTableOK, "TOOL: placement hash recomputed in TLC (AbyHash) differs from the decoder's re-implementation")
+    /\ Assert(CodecTableOK, "TOOL: key bytes of an integer key in the tables differ from AbyCodec")
     /\ IF TLCGet("stats").diameter - 1 = NRec THEN PrintT(<<"TRACE-DONE", NRec>>)
        ELSE PrintT(<<"TRACE-STUCK", TLCGet("stats").diameter - 1, NRec>>) /\ FALSE
 =============================================================================
